@@ -4,7 +4,7 @@ RULE = ("seeded random histories on a fresh NNS deployment: 2 TLDs (one may expi
         "owners/admins/receivers; register (incl. re-registration of unexpired and expired names, expire from {<=0, 1 s, 5 s, 100 s, 1000 s, 1 y, "
         "5 y+200 s, 9 y+100 s, 10 y}), registerTLD, transfer (to self, users, contracts with and without onNEP11Payment, malformed), renew "
         "(years 0..11, default overload), updateSOA, setAdmin, add/set/deleteRecords over A/AAAA/CNAME/TXT incl. bursts past 16 records, CNAME "
-        "chains of 0..4 links incl. cycles and trailing dots, sub-name records before registrations (F15), the conflict rule at every depth (records 1..4 labels below a not-yet-registered name plus sibling / exact / one-below neighbours, then isAvailable and register of the name, deletion, registration), setRecord with another record's "
+        "chains of 0..4 links incl. cycles and trailing dots, sub-name records before registrations (F15), the conflict rule at every depth (records 1..4 labels below a not-yet-registered name plus sibling / exact / one-below neighbours, then isAvailable and register of the name, deletion, registration), sub-names that repeat the whole name (c.c, x.c.y.c, c.c.c at label boundaries, xc.c off a boundary; negatives c.xc, c.n.p) with isAvailable/register of c and the reads of the sub-names, setRecord with another record's "
         "value (F16), setPrice incl. 0; signer per op drawn from {owner, admin, former owner, former admin, parent owner, stranger, committee, "
         "nobody, owner+other}, committees of 1, 4 and 6 members (3 and 5 in the thorough tier) with the signer classes single member / half / majority-1 / majority / majority+1 for every committee-gated method, setAdmin by the current admin with and without the new admin over ownership histories, values shared between record types with setRecord at another index, full lists of 16 records probed with setRecord at ids 0/14/15/16/255, four-level names whose enclosing names have different owners, a role matrix (one method called by every role in turn) and the directed history setAdmin(A); transfer to B; A / former owner mutate; block time advanced by ms steps, jumps, and to exp-1/exp/exp+1 of registered names and to the instant where a "
         "renewal meets the ten-year limit; after every invocation the read API (ownerOf, properties, isAvailable, getRecords, getAllRecords, "
